@@ -126,6 +126,9 @@ def correspond(ck, observed: list) -> None:
     camp = ck.campaign("discr.visits (Model.DiscrVisit: lookup, retype/create, rewrite of propertyName, n visits of the same dict) vs "
                        "the members of every variant before/after the real Parser.__apply_discriminator_type (wrapped)")
     items = []
+    if observed and not any(rec.get("variants") for _, _, rec in observed):
+        raise RuntimeError("c07_discr_obs: the wrapper around Parser.__apply_discriminator_type was never called "
+                           "(installed too late, or the pass was renamed): the correspondence would be vacuous")
     for shape, kind, rec in observed:
         for v in rec.get("variants", []):
             camp.evaluations += 1
